@@ -1,5 +1,5 @@
 """Which units exist, and what each claimed property covers / does not cover (copied into evidence)."""
-UNITS = ['budget']
+UNITS = ['budget', 'scalars']
 
 GLOBAL_ASSUMPTIONS = [
     'Verus 0.2026.09.13 and its bundled Z3 are sound; the extractor rewrite rules R0..R17 preserve meaning (DESIGN.md 3.2)',
@@ -30,6 +30,45 @@ PROPS = {
         not_covered=['entry points as wholes; saphyr-parser; serde-generated visitors; stack exhaustion; allocation failure'],
         assumptions=[],
     ),
+    'C06': dict(
+        covered=[
+            'parse_int_signed / parse_int_unsigned for all 10 integer widths (monomorphised text of the generic functions): '
+            'Ok(v) iff the trimmed token denotes the mathematical integer v (sign, decimal, 0x/0o/0b, `_` separators, legacy '
+            'octal) and v fits the width; otherwise Err - never wrapped, saturated or truncated; unsigned rejects any `-`',
+            'parse_digits_u128 / parse_decimal_*: value of a digit string of any length, None on overflow, non-digit, '
+            'digit >= radix or no digit at all',
+            'radix_and_digits: the prefix table incl. legacy "00"; the `&rest[2..]` slice is in range and on a char boundary',
+            'decode_val: RFC 4648 alphabet; SfTag::can_parse_into_string table',
+        ],
+        not_covered=[
+            'float values (str::parse::<f64> is std), bool/null tables and decode_base64_yaml (iterator adapters; Kani bounded stand-in planned)',
+            'what str::trim removes (uninterpreted spec_trim); which parser a deserialize_* method picks; deserialize_any inference order',
+        ],
+        assumptions=['str::trim / strip_prefix / starts_with / slicing behave as their shim contracts say (contracts/str.shim.rs)'],
+    ),
     'C08': dict(covered=['budget counters bound the number of observed events/nodes (BudgetEnforcer::observe accept_only_within_limits)'],
                 not_covered=['heap bytes (no allocator model)'], assumptions=[]),
+}
+
+NOTES = ('See DESIGN.md. Genuine defects repaired in /repo by fix: commits 0126e05 (F2), 956dd0f (F1a), a6603bd (F7); '
+         'recorded in known_findings.txt. Exit 2 (UNDECIDED) is used for tool limits / lost anchors and is never an alarm.')
+
+# properties not claimed (kept current; a property moves out of here when a unit starts carrying it)
+NOT_APPLICABLE = {
+    'C13': 'needs a formal YAML reader semantics as oracle; no function contract in ser.rs expresses re-parse equality (DESIGN.md 5)',
+    'C14': 'identity flows through thread_local HashMap<usize, Rc<dyn Any>>, Rc::ptr_eq, Drop guards: outside Verus; kani-compiler ICEs on anchor_store',
+    'C15': 'thread-local state, RAII restoration and unwinding through visitors: not modelled by Verus (no Drop/thread_local) nor Kani (no unwinding)',
+    'C18': 'optional features not built by the baseline; oracle is the validation crates; path_map uses HashMap iteration and closure-heavy iterator chains outside Verus',
+    'C02': 'not yet under contract in this revision (unit live planned, DESIGN.md 4)',
+    'C03': 'not yet under contract in this revision (unit events planned)',
+    'C04': 'not yet under contract in this revision (unit events planned)',
+    'C05': 'not yet under contract in this revision (unit cursor planned)',
+    'C09': 'not yet under contract in this revision (unit reader planned)',
+    'C10': 'not yet under contract in this revision (units reader/live planned)',
+    'C11': 'not yet under contract in this revision (unit live planned)',
+    'C12': 'not yet under contract in this revision (unit quoting planned)',
+    'C16': 'not yet under contract in this revision (unit location planned)',
+    'C17': 'not yet under contract in this revision (unit snippet planned)',
+    'C19': 'not yet under contract in this revision (unit robotics planned)',
+    'C20': 'not yet under contract in this revision (unit quoting planned)',
 }
